@@ -461,8 +461,16 @@ class Array:
         if np.prod(self._shape) == 0:
             # numpy cannot write to a fd of an empty file.
             # Hence we overwrite the file. It is not beautiful but it works.
-            array = self._checkarrayforappend(next(arrayiterable))
-            array.tofile(str(self._datapath))
+            try:
+                array = next(arrayiterable)
+            except StopIteration:  # nothing to append
+                return
+            array = self._checkarrayforappend(array)
+            try:
+                array.tofile(str(self._datapath))
+            except Exception:
+                os.truncate(self._datapath, 0)  # back to the empty array
+                raise
             self._update_len(lenincrease=array.shape[0])
         with self._open_array() as (v, fd):
             oldshape = v.shape
